@@ -127,6 +127,7 @@ class Monitor {
         bool in_list = false;
         bool last_svc_ok = false;
         bool stimulus_since_ok = true;
+        bool svc_ok_now = false; // the last cat_service call returned OK and nothing has stimulated the parser since
 
         void consume_cmd_item();
         void consume_ev_item();
